@@ -32,3 +32,4 @@ import LyModel.Props.C07Completion
 #print axioms LyModel.Props.C07.implicit_exact_tree_nochoice
 #print axioms LyModel.Props.C07.implicit_exact_tree
 #print axioms LyModel.Props.C07.implicit_exact_tree_of_B
+#print axioms LyModel.Props.C07.implicit_exact_tree_nonfresh_fails
